@@ -293,6 +293,14 @@ UriBool URI_FUNC(RemoveDotSegmentsEx)(URI_TYPE(Uri) * uri,
 									memory->free(memory, (URI_CHAR *)walker->text.first);
 								}
 								memory->free(memory, walker);
+							} else if (uri->absolutePath) {
+								/* Nothing is left below the root: the path is "/" (absolutePath, no segments) */
+								if (pathOwned && (walker->text.first != walker->text.afterLast)) {
+									memory->free(memory, (URI_CHAR *)walker->text.first);
+								}
+								memory->free(memory, walker);
+								uri->pathHead = NULL;
+								uri->pathTail = NULL;
 							} else {
 								/* Re-use segment for "" path segment to represent trailing slash, update tail */
 								URI_TYPE(PathSegment) * const segment = walker;
